@@ -134,6 +134,7 @@ type Case struct {
 	DLQ            DLQSpec        `json:"dlq"`
 	StoreFaults    []Fault        `json:"store_faults,omitempty"`
 	GateCommits    bool           `json:"gate_commits,omitempty"`
+	GateCallbacks  bool           `json:"gate_callbacks,omitempty"` // persister callbacks are scheduler actions
 	Client         []ClientAction `json:"client,omitempty"`
 	GoMaxProcs     int            `json:"gomaxprocs,omitempty"`
 	// Choices is filled while running: the scheduler's draws (index, set size).
